@@ -327,7 +327,22 @@ class NF:
             return ("op", "cmp:" + ",".join(type(o).__name__ for o in e.ops),
                     tuple([self.ev(e.left, env)] + [self.ev(c, env) for c in e.comparators]))
         if isinstance(e, ast.BoolOp):
-            return ("op", type(e.op).__name__, tuple(self.ev(v, env) for v in e.values))
+            vals = [self.ev(v, env) for v in e.values]
+            if isinstance(e.op, ast.Or):
+                # `x or default`: decided when the truthiness of x is syntactically known
+                out = []
+                for v in vals:
+                    tr = _truthiness(v)
+                    if tr is True:
+                        out.append(v)
+                        break
+                    if tr is False and v is not vals[-1]:
+                        continue
+                    out.append(v)
+                if len(out) == 1:
+                    return out[0]
+                vals = out
+            return ("op", type(e.op).__name__, tuple(vals))
         if isinstance(e, ast.UnaryOp):
             v = self.ev(e.operand, env)
             if isinstance(e.op, ast.USub) and v[0] == "const" and isinstance(v[1], (int, float)):
@@ -994,6 +1009,19 @@ class NF:
         return self.ev(ast.parse(src, mode="eval").body, env), env
 
 
+def _truthiness(t):
+    if t[0] == "const":
+        return bool(t[1])
+    if t[0] == "list":
+        if any(x[0] != "splat" for x in t[1]):
+            return True
+        if not t[1]:
+            return False
+    if t[0] == "ctor":
+        return True
+    return None
+
+
 def _is_protocol_stub(m: ast.FunctionDef) -> bool:
     b = real_body(m)
     return all(isinstance(s, ast.Pass) or (isinstance(s, ast.Expr) and isinstance(s.value, ast.Constant)) for s in b) or not b
@@ -1014,3 +1042,21 @@ def find_calls(t, suffix: str) -> list:
             if isinstance(x, tuple):
                 out += find_calls(x, suffix)
     return out
+
+
+def fill_defaults(nf, t, env=None):
+    """ctor terms get their un-passed dataclass parameters filled with evaluable defaults (for table comparison)"""
+    if not isinstance(t, tuple) or not t:
+        return t
+    if t[0] == "ctor":
+        cls = nf.prog.cls(t[1])
+        args = {p: fill_defaults(nf, v, env) for p, v in t[2]}
+        c, init = cls.find_method("__init__")
+        if init is None:
+            for f in cls.all_fields():
+                if f.init and f.name not in args:
+                    d = nf.field_default(f, env or Env(cls.module, cls))
+                    if d is not None:
+                        args[f.name] = d
+        return mk_ctor(t[1], args)
+    return tuple(fill_defaults(nf, x, env) if isinstance(x, tuple) else x for x in t)
